@@ -15,7 +15,7 @@ REQUIRED_THEOREMS = ["Clikit.Props.C01." + n for n in (
     "parse_spells", "spellings_agree", "opt_single_last_wins", "opt_multi_in_order", "opt_without_value", "positional_kth",
     "runSem_other_option", "option_short_eq_long", "argument_index_eq_name", "option_default_when_absent",
     "argument_default_when_absent", "arguments_listing",
-    "positionals_in_order", "command_names_realigned", "real_arguments_follow_typed_names")]
+    "positionals_in_order", "command_names_realigned", "real_arguments_follow_typed_names", "wf_decides")]
 TECHNIQUE = ("Lean 4 model of DefaultArgsParser/Args with theorems about the token loop and the accessors + "
              "differential correspondence on generated formats x spellings, oracle re-deriving the intended assignment")
 LEVEL_TEXT = ("Proved in Lean on the parser/Args model, for EVERY format, item list, spelling and both modes: parse_spells - "
@@ -36,7 +36,8 @@ LEVEL_TEXT = ("Proved in Lean on the parser/Args model, for EVERY format, item l
               "re-derives the intended assignment from the generator's intent.")
 LEVEL_NOTE = ("Trusted: Lean kernel + standard axioms; hand-written parser model tied by correspondence; the spelling generator "
               "and the oracle (harness/parser_common.py, harness/props/c01.py). The re-alignment theorems assume a multi-valued argument "
-              "is the last one and argument names are distinct (what C06 guarantees for built formats) and that the positionals "
+              "is the last one and argument names are distinct (what C06 guarantees for built formats; decided by the model "
+              "on every format read from the real builder - entry c01.wf, theorem wf_decides - and compared with true) and that the positionals "
               "fit the format; conversions use CPython int()/float() as tables. The shared-parser dimension (every line is "
               "also parsed on a parser object that parsed another line before) is covered by the correspondence, and by C05's "
               "theorems for the scratch state.")
@@ -103,6 +104,8 @@ def model_requests(case):
         r = pc.model_request(flat, case["tokens"], len_, entry="c01.sem")
         r["sems"] = case["intent"]["sems"]
         reqs.append(r)
+    # the hypotheses of the re-alignment theorems, decided by the model on the format the REAL builder produced
+    reqs.append({"m": "c01.wf", "fmt": flat})
     return reqs
 
 
@@ -110,13 +113,16 @@ def model_obs(case, answers):
     # the model's parse is a function of the line: a reused parser object must answer the same
     return {"strict": pc.canon_model_answer(answers[0]), "lenient": pc.canon_model_answer(answers[1]),
             "strict_reused": pc.canon_model_answer(answers[0]), "lenient_reused": pc.canon_model_answer(answers[1]),
-            "meaning_strict": pc.canon_model_answer(answers[2]), "meaning_lenient": pc.canon_model_answer(answers[3])}
+            "meaning_strict": pc.canon_model_answer(answers[2]), "meaning_lenient": pc.canon_model_answer(answers[3]),
+            "wf": answers[4]}
 
 
 def impl_view(case, obs):
     return {"strict": obs["strict"], "lenient": obs["lenient"],
             "strict_reused": obs["strict_reused"], "lenient_reused": obs["lenient_reused"],
-            "meaning_strict": obs["strict"], "meaning_lenient": obs["lenient"]}
+            "meaning_strict": obs["strict"], "meaning_lenient": obs["lenient"],
+            # every format that can be built has its multi-valued argument last and distinct argument names (C06)
+            "wf": {"multi_last": True, "nodup": True}}
 
 
 # ---- the statement, re-derived independently --------------------------------------------------
